@@ -12,8 +12,8 @@ CONSTANTS Messages <- MCMessages
           SzBig = 60
           SzErr = 40
           SzInv = 43
-          CallMethods = {"blk", "sub"}
-          NotifMethods = {"blk"}
+          CallMethods = {"blk", "sub", "nsub"}
+          NotifMethods = {"blk", "nsub"}
           InvIds = {}
           WithResp = FALSE
           MaxBatch = 1
